@@ -278,7 +278,7 @@ def call_np(ip, name, args, kwargs, lineno):
     c = ip.ctx
     fn = c.fname
     if name in ("empty", "zeros", "ones", "full"):
-        shape = args[0]
+        shape = args[0] if args else kwargs["shape"]
         val = {"empty": None, "zeros": 0, "ones": 1}.get(name, args[1] if name == "full" else None)
         M.use("np.%s" % name)
         if isinstance(shape, tuple) and len(shape) == 2:
@@ -1024,6 +1024,9 @@ def make_ragged(ip, data, shape, enc, lineno):
         C = M.exclusive_prefix(fl, lens.length, lens)
         c.check("%s:ragged.size@L%s" % (c.fname, lineno), C(I(lens.length)) == I(data.length), "safety", lineno,
                 "row lengths sum to the data size")
+        if getattr(c, "ragged_heap", False) and isinstance(data, SArr) and conc(data.start) == 0 and conc(data.step) == 1:
+            # (requested by the contract) the ragged array shares the flat buffer: writes through either are seen by both
+            return SRaggedObj(None, lens.length, lambda i: C(I(i)), fl, enc, data.length, contiguous=True, C=C, buf=data.buf)
         return SRaggedObj(fd, lens.length, lambda i: C(I(i)), fl, enc, data.length, contiguous=True, C=C)
     raise Unsupported("ragged shape %r" % (shape,))
 
@@ -1071,17 +1074,7 @@ class SRaggedObj(SRagged):
     def setitem(self, ip, idx, value, lineno):
         """ragged item assignment: the written cells belong to THIS array's heap cell; the new content is not tracked
         (havoc) - enough for frame conditions, which is what the engine uses it for."""
-        if self.buf is None and isinstance(idx, tuple) and len(idx) == 2 and isinstance(idx[0], SArr) and idx[0].kind == "bool" \
-                and isinstance(idx[1], (int, z3.ArithRef)) and isinstance(conc(idx[1]), int) and conc(idx[1]) >= 0 and not isinstance(value, (SArr, SRagged, list)):
-            # r[row_mask, c] = scalar on a ragged VALUE (no other alias): exact; the masked rows must be long enough (obligation)
-            M.use("ragged[row mask, column] = scalar (exact, on a ragged value without aliases)")
-            fm, col = idx[0].snapshot(), conc(idx[1])
-            M.same_len(self.n, idx[0].length, "ragged.maskstore", lineno)
-            ln0, old_at = self.lens, self.at
-            ip.ctx.oblige("%s:ragged.column.inbounds@L%s" % (ip.ctx.fname, lineno),
-                          Forall(lambda i: Implies(And(in_range(i, self.n), B(fm(i))), I(ln0(i)) > col)), "safety", lineno, "masked rows have that column")
-            v = ord(value) if isinstance(value, str) and len(value) == 1 else value
-            self.at = lambda i, k, old_at=old_at, fm=fm, col=col, v=v: Ite(And(B(fm(i)), I(k) == col), v, old_at(i, k))
+        if self.exact_setitem(ip, idx, value, lineno):
             return
         M.use("ragged item assignment writes into the array's own buffer (content abstracted)")
         if self.buf is None:
@@ -1089,6 +1082,106 @@ class SRaggedObj(SRagged):
         h = ip.ctx.fresh_fun("ragged_written")
         self.buf.at = lambda p, h=h: h(I(p))
         ip.ctx.ghost.setdefault("writes", []).append((self.buf.name, lineno))
+
+    def rowof(self, ip):
+        """Skolem function: the row of a flat position of a CONTIGUOUS ragged array (C(row(p)) <= p < C(row(p)+1)); needs lens >= 0"""
+        if getattr(self, "_rowof", None) is None:
+            c = ip.ctx
+            C, n, fl = self.C, self.n, self.lens
+            c.oblige("%s:ragged.lens.nonneg" % c.fname, Forall(lambda i: Implies(in_range(i, n), I(fl(i)) >= 0)), "safety", None, "row lengths >= 0")
+            M.prefix_monotone(C, fl, n, "ragged.lens.nonneg.lemma")
+            row = c.fresh_fun("rowof")
+            total = C(I(n))
+            c.assume(Forall(lambda p: Implies(in_range(p, total), And(in_range(row(p), n), C(row(p)) <= I(p), I(p) < C(row(p) + 1))), triggers=[row], name="ragged.rowof"))
+            self._rowof = row
+        return self._rowof
+
+    def exact_setitem(self, ip, idx, value, lineno):
+        """r[rows, cols] = value, exactly, for the selections the verified code uses:
+             rows:  ':'  |  a::s (literal a >= 0, s >= 1)  |  boolean row mask (scalar value only)
+             cols:  literal int (negative: from the row's end)  |  lo:hi with literal lo >= 0 and hi in {None, negative literal}
+             value: scalar / character  |  ragged (row t of the value goes to the t-th selected row)  |  1-D array for a single column.
+        Supported on a ragged VALUE without aliases (its element function is replaced) and on a CONTIGUOUS ragged array over a heap cell
+        (the cell is rewritten through the row-of-position Skolem function, so every alias - the flat buffer - sees the write)."""
+        if not (isinstance(idx, tuple) and len(idx) == 2):
+            return False
+        rs, cs = idx
+        n, ln0 = self.n, self.lens
+        full = slice(None, None, None)
+        lit = lambda x: isinstance(conc(x), int) and not isinstance(conc(x), bool)
+        # ---- rows
+        if isinstance(rs, slice) and (rs == full or ((rs.start is None or (lit(rs.start) and conc(rs.start) >= 0)) and rs.stop is None and (rs.step is None or (lit(rs.step) and conc(rs.step) >= 1)))):
+            a0 = 0 if rs.start is None else conc(rs.start)
+            s0 = 1 if rs.step is None else conc(rs.step)
+            if s0 == 1:
+                rowsel, rowidx = (lambda i: I(i) >= a0), (lambda i: I(i) - a0)
+            else:
+                rowsel = lambda i: And(I(i) >= a0, M._divmod_noassert(I(i) - a0, s0)[1] == 0)
+                rowidx = lambda i: M._divmod_noassert(I(i) - a0, s0)[0]
+            nsel = conc(Ite(I(n) > a0, M._divmod_noassert(I(n) - a0 + s0 - 1, s0)[0], 0))
+            mask_rows = False
+        elif isinstance(rs, SArr) and rs.kind == "bool":
+            fm = rs.snapshot()
+            M.same_len(n, rs.length, "ragged.maskstore", lineno)
+            rowsel, rowidx, nsel, mask_rows = (lambda i: B(fm(i))), None, None, True
+        else:
+            return False
+        # ---- columns
+        if lit(cs):
+            cc = conc(cs)
+            col_of = (lambda i: cc) if cc >= 0 else (lambda i: I(ln0(i)) + cc)
+            colsel = lambda i, k: I(k) == I(col_of(i))
+            colidx = lambda i, k: 0
+            width = None
+            need = lambda i: (I(ln0(i)) > cc) if cc >= 0 else (I(ln0(i)) >= -cc)
+        elif isinstance(cs, slice) and cs.step is None and (cs.start is None or (lit(cs.start) and conc(cs.start) >= 0)) and (cs.stop is None or (lit(cs.stop) and conc(cs.stop) < 0)):
+            lo = 0 if cs.start is None else conc(cs.start)
+            hi = 0 if cs.stop is None else conc(cs.stop)
+            colsel = lambda i, k: And(I(k) >= lo, I(k) < I(ln0(i)) + hi)
+            colidx = lambda i, k: I(k) - lo
+            width = lambda i: conc(Max(I(ln0(i)) + hi - lo, 0))
+            need = None
+        else:
+            return False
+        # ---- value
+        c = ip.ctx
+        if isinstance(value, str) and len(value) == 1:
+            value = ord(value)
+        if isinstance(value, SRagged):
+            if mask_rows or width is None:
+                return False
+            M.same_len(value.n, nsel, "ragged.store.rows", lineno)
+            vl, vat = value.lens, value.at
+            c.oblige("%s:ragged.store.row.widths@L%s" % (c.fname, lineno),
+                     Forall(lambda i: Implies(And(in_range(i, n), B(rowsel(i))), I(vl(rowidx(i))) == I(width(i)))), "safety", lineno, "every value row fits its target slice exactly")
+            val = lambda i, k: vat(rowidx(i), colidx(i, k))
+        elif isinstance(value, SArr):
+            if mask_rows or width is not None:
+                return False
+            M.same_len(value.length, nsel, "ragged.store.rows", lineno)
+            fv = value.snapshot()
+            val = lambda i, k: fv(rowidx(i))
+        elif isinstance(value, (int, z3.ArithRef)) and not isinstance(value, bool):
+            val = lambda i, k: value
+        else:
+            return False
+        if need is not None:
+            c.oblige("%s:ragged.column.inbounds@L%s" % (c.fname, lineno), Forall(lambda i: Implies(And(in_range(i, n), B(rowsel(i))), need(i))), "safety", lineno, "selected rows have that column")
+        cell = lambda i, k: And(in_range(i, n), B(rowsel(i)), in_range(k, ln0(i)), B(colsel(i, k)))
+        if self.buf is None:
+            M.use("ragged[rows, cols] = value (exact, on a ragged value without aliases)")
+            old_at = self.at
+            self.at = lambda i, k, old_at=old_at: Ite(cell(i, k), val(i, k), old_at(i, k))
+            return True
+        if self.contiguous and self.C is not None:
+            M.use("ragged[rows, cols] = value (exact, written through to the flat buffer of a contiguous ragged array)")
+            row, C = self.rowof(ip), self.C
+            old = self.buf.at
+            total = C(I(n))
+            self.buf.at = lambda p, old=old: Ite(And(in_range(p, total), cell(row(I(p)), I(p) - C(row(I(p))))), val(row(I(p)), I(p) - C(row(I(p)))), old(p))
+            c.ghost.setdefault("writes", []).append((self.buf.name, lineno))
+            return True
+        return False
 
     def getattr(self, ip, name, lineno):
         if name == "ravel":
@@ -1105,6 +1198,10 @@ class SRaggedObj(SRagged):
             return _RaggedMethod(self, "raw")
         if name == "copy":
             return _RaggedMethod(self, "copy")
+        if name == "__class__":
+            import bionumpy.encoded_array as _ea
+            import npstructures as _nps
+            return _ea.EncodedRaggedArray if self.enc is not None else _nps.RaggedArray      # (the wrappers are transparent: class models)
         raise Unsupported("ragged attribute %s" % name)
 
     def sym_len(self, ip):
@@ -1188,7 +1285,7 @@ def ragged_ravel(ip, r, lineno):
     Given through a Skolem row-of-position function.  Requires lens >= 0 (obligation).  EXACT."""
     M.use("RaggedArray.ravel (concatenation of rows)")
     c = ip.ctx
-    if r.contiguous and r.total is not None:
+    if r.contiguous and r.total is not None and "at" not in r.__dict__:
         return SArr.fresh(r.total, r.data_at, "int", r.enc)
     n = r.n
     fl, fs, fd = r.lens, r.starts, r.data_at
